@@ -824,7 +824,8 @@ code of the Cosmos SDK version that `/repo/go.mod` selects; their statement list
 (`sdkCancelSteps`, `sdkDeleteProposalSteps`, `sdkDeleteVotesSteps`, `sdkChargeSteps`, `sdkChargeBody`, `sdkChargeCoin`,
 `sdkChargeDest`, `sdkRefundCallback`, `sdkBurnSteps`, `sdkBurnCallback`) and interpreted here, tag by tag in source order.
 `Proofs/C15Sdk.lean` proves the interpreted runs equal to the one-piece functions above (`cancel`, `refundDeposits`,
-`burnDeposits`) for the lists the source has now; `step` runs `cancelRun`. -/
+`burnDeposits`) for the lists the source has now; `step` runs `cancelRun`, the end-blocker (`dropInactive`, `finishTally`) runs
+`refundRun` / `burnRun`, `AddDeposit`'s activation step runs `activateRun`. -/
 
 /-- locals of `DeleteProposal` / `CancelProposal`: the store, the local `proposal`, the error returned so far -/
 structure SdkLocals where
@@ -1023,7 +1024,7 @@ def dropInactive (pid : Nat) (s : State) : Except Err State :=
                        inactive := removeQ (p.depositEnd, pid) s.inactive,
                        active := removeQ (p.votingEnd, pid) s.active }
     if inactiveSettleShapeOk then
-      if !s.params.burnPrevote then refundDeposits pid s1 else burnDeposits pid s1
+      if !s.params.burnPrevote then refundRun pid s1 else burnRun pid s1
     else .ok s1
 
 /-- the variant in which the settlement stands AFTER the outcome switch: the outcome first (queue entry removed, messages
@@ -1040,7 +1041,7 @@ def finishTallyLate (passes burn : Bool) (res : Nat × Nat × Nat × Nat) (p : P
       ({ s2 with active := insertQ (p'.votingEnd, pid) s2.active }, p')
     else (s2, { p with status := .rejected, tallyRes := res })
   let settle : Except Err State :=
-    if !(p'.expedited && !passes) then (if burn then burnDeposits pid s3 else refundDeposits pid s3) else .ok s3
+    if !(p'.expedited && !passes) then (if burn then burnRun pid s3 else refundRun pid s3) else .ok s3
   match settle with
   | .error err => .error err
   | .ok s4 => .ok { s4 with props := putProp s4.props p' }
@@ -1051,7 +1052,7 @@ def finishTally (passes burn : Bool) (res : Nat × Nat × Nat × Nat) (p : Propo
   if !settleShapeOk && settleAfterOutcome then finishTallyLate passes burn res p pid s else
   let settle : Except Err State :=
     if settleShapeOk then
-      if !(p.expedited && !passes) then (if burn then burnDeposits pid s else refundDeposits pid s) else .ok s
+      if !(p.expedited && !passes) then (if burn then burnRun pid s else refundRun pid s) else .ok s
     else .ok s
   match settle with
   | .error err => .error err
